@@ -507,6 +507,81 @@ def job_transmission(j, seed):
     return {'obligations': obs, 'candidates': cands, 'paths': len(paths)}
 
 
+def job_material(j, seed):
+    """The transmission map with the package's own Material: the attenuation used at every integration point is
+    n (sigma_s + sigma_a lambda / 1.7982 angstrom) for the wavelength as given - float64, float32 or integer-valued,
+    in any length unit (abstract 2-point quadrature as in job_transmission)."""
+    lam_dtype = j
+    import numpy as np
+    from symex import core as C
+    from symex import loader
+    from symsc import variable as V
+    from .symutil import fresh_run, si_value, sym_scalar, sym_unit
+
+    sc, cyl, base = _load()
+    atoms = loader.load('atoms')
+    mat = loader.load('absorption.material')
+    fresh_run()
+    obs, cands = [], []
+    case = {'kind': 'material', 'wavelength_dtype': lam_dtype}
+    tag = f'material[{lam_dtype} wavelength]'
+    w1, w2 = C.sym_var('w1', sign='+'), C.sym_var('w2', sign='+')
+    L = [[C.sym_var(f'L{i}{k}', sign='0+') for k in range(2)] for i in range(2)]
+    ss = sym_scalar('sigma_s', 'barn')
+    sa = sym_scalar('sigma_a', 'barn')
+    n = sym_scalar('n', sym_unit('n', '1/m**3'))
+    ulam = sym_unit('lam', 'm')
+    lv = C.sym_var('lam', sign='+', is_int=lam_dtype.startswith('int'))
+    a_ = np.empty((1,), dtype=object)
+    a_[0] = lv
+    lam = V.Variable(_arr=a_, dims=('wavelength',), unit=ulam, dtype=V.as_dtype(lam_dtype))
+    sp = atoms.ScatteringParams(isotope='X', total_scattering_cross_section=ss, absorption_cross_section=sa)
+    material = mat.Material(scattering_params=sp, effective_sample_number_density=n)
+
+    class Shape:
+        volume = sc.scalar(w1 + w2, unit='m**3')
+        calls = 0
+
+        def quadrature(self, kind):
+            return sc.vectors(dims=['quad'], values=[[0.0, 0.0, 0.0], [0.0, 0.0, 0.1]], unit='m'), sc.array(dims=['quad'], values=[w1, w2], unit='m**3')
+
+        def beam_intersection(self, start, direction):
+            Shape.calls += 1
+            leg = (Shape.calls - 1) % 2
+            b = np.empty((1, 2), dtype=object)
+            b[0, 0], b[0, 1] = L[0][leg], L[1][leg]
+            return V.Variable(_arr=b, dims=('det', 'quad'), unit=V.parse_unit('m'), dtype=V.DType.float64)
+
+    def run():
+        Shape.calls = 0
+        return base.compute_transmission_map(Shape(), material, beam_direction=sc.vector([0.0, 0.0, 1.0]), wavelength=lam,
+                                             detector_position=sc.vectors(dims=['det'], values=[[1.0, 0.0, 0.0]], unit='m'))
+
+    paths = C.explore(run, max_paths=8)
+    nret = 0
+    for k, p_ in enumerate(paths):
+        if p_.exc is not None or p_.inconclusive:
+            obs.append({'name': f'{tag}:path{k}', 'status': 'inconclusive' if p_.inconclusive else 'violated', 'detail': str(p_.inconclusive or repr(p_.exc))[:300], 't': 0})
+            if p_.exc is not None:
+                cands.append(('C18:material:raises', case, repr(p_.exc)[:100]))
+            continue
+        nret += 1
+        t1 = p_.value.data.values.reshape(-1)[0]
+        with C.oracle():
+            ref = Fraction(1.7982) * Fraction(1, 10**10)
+            mu = si_value(n) * (si_value(ss) + si_value(sa) * (lv * C.R(ulam.scale_rat())) / ref)
+        e = [C.rfn('exp', -(mu * (L[i][0] + L[i][1])), sign='+') for i in range(2)]
+        with C.oracle():
+            exp1 = (w1 * e[0] + w2 * e[1]) / (w1 + w2)
+        ob = C.prove(f'{tag}:path{k}: map = sum w_i exp(-n (sigma_s + sigma_a lambda / 1.7982 A) (L_in + L_out)) / V', C.B.const(not getattr(t1, 'special', None)) & (C.R.lift(t1) == exp1) if not getattr(t1, 'special', None) else C.FALSE, pc=p_.pc, timeout_ms=30000)
+        obs.append(ob_dict(ob))
+        if ob.status != 'discharged':
+            cands.append(('C18:material:attenuation', case, 'the attenuation used in the map is not n (sigma_s + sigma_a lambda / 1.7982 A) for the wavelength as given'))
+    ob = C.prove(f'{tag}: some path returns', C.B.const(nret >= 1))
+    obs.append(ob_dict(ob))
+    return {'obligations': obs, 'candidates': cands, 'paths': len(paths)}
+
+
 def run(chk):
     sc, cyl, base = _load()
     from symex import loader
@@ -521,6 +596,7 @@ def run(chk):
     run_jobs(chk, job_quadrature, [None, 'south', 'north'])
     run_jobs(chk, job_k, [('cheap', 5, 5, 15), ('medium', 7, 7, 25), ('expensive', 11, 11, 35)])
     run_jobs(chk, job_transmission, [0])
+    run_jobs(chk, job_material, ['float64', 'float32', 'int64'] + (['int32'] if chk.tier == 'thorough' else []))
     # table facts: ground arithmetic over the real tables for every k (real numpy process)
     import json, os, subprocess
     from .common import PY, VERIF
@@ -555,6 +631,31 @@ def replay_real(case):
     rng = np.random.default_rng(9)
     bad = []
     kind = case['kind']
+    if kind == 'material':
+        from scippneutron.absorption import compute_transmission_map
+        from scippneutron.absorption.material import Material
+        from scippneutron.atoms import ScatteringParams
+
+        ldt = case.get('wavelength_dtype', 'float64')
+        sp = ScatteringParams(isotope='X', total_scattering_cross_section=sc.scalar(5.0, unit='barn'), absorption_cross_section=sc.scalar(40.0, unit='barn'))
+        m_ = Material(scattering_params=sp, effective_sample_number_density=sc.scalar(0.05, unit='1/angstrom**3'))
+        shape = cy.Cylinder(symmetry_line=sc.vector([0.0, 1.0, 0.0]), center_of_base=sc.vector([0.0, -0.5, 0.0], unit='mm'), radius=sc.scalar(1.0, unit='mm'), height=sc.scalar(1.0, unit='mm'))
+        det = sc.vectors(dims=['det'], values=[[0.0, 0.0, 100.0], [30.0, 5.0, 60.0]], unit='m')
+        for unit, vals in (('angstrom', [1, 2, 5, 9]), ('nm', [1, 2]), ('pm', [150, 420])):
+            lam = sc.array(dims=['wavelength'], values=vals, unit=unit, dtype=ldt) if ldt.startswith('int') else sc.array(dims=['wavelength'], values=[float(v_) for v_ in vals], unit=unit, dtype=ldt)
+            ref_lam = sc.array(dims=['wavelength'], values=[float(v_) for v_ in vals], unit=unit, dtype='float64')
+            got = compute_transmission_map(shape, m_, beam_direction=sc.vector([0.0, 0.0, 1.0]), wavelength=lam, detector_position=det, quadrature_kind='cheap')
+            # the physical attenuation coefficient, independently
+            mu = 0.05e30 * (5.0 + 40.0 * ref_lam.to(unit='angstrom').values / 1.7982) * 1e-28
+            got_mu = sc.values(m_.attenuation_coefficient(lam)).to(unit='1/m', dtype='float64').values
+            tol = 1e-6 if ldt == 'float32' else 1e-12
+            if not np.allclose(got_mu, mu, rtol=tol):
+                bad.append(f'attenuation coefficient for {vals} {unit} ({ldt}): {got_mu.tolist()} 1/m, n (sigma_s + sigma_a lambda / 1.7982 A) = {mu.tolist()} 1/m')
+                continue
+            ref = compute_transmission_map(shape, m_, beam_direction=sc.vector([0.0, 0.0, 1.0]), wavelength=ref_lam, detector_position=det, quadrature_kind='cheap')
+            if not np.all((got.values > 0) & (got.values <= 1)) or not np.allclose(got.values, ref.values, rtol=max(tol, 1e-9)):
+                bad.append(f'transmission for {vals} {unit} ({ldt}): {got.values.tolist()} vs {ref.values.tolist()} for the same wavelengths in float64')
+        return {'reproduced': bool(bad), 'detail': '; '.join(bad[:2])[:600]}
 
     def inside(cyl_, pts, tol=1e-9):
         a = cyl_.symmetry_line.value
